@@ -441,6 +441,34 @@ class Prover:
             return (mid[0], min(mid[1], whole[1]))
         return (max(0, whole[0] - mid[1]), max(0, whole[1] - mid[0]))
 
+    def _range_view_len(self, rp, block, depth=0):
+        """length of `x[a..b]` / `x[..b]` / `x[a..]` (a slice view made by Index/IndexMut with a half-open range) when the
+        bounds are known exactly and lie inside a fixed-length `x`: b - a (a defaults to 0, b to len(x))"""
+        if rp is None or depth > 2 or rp['p'] not in ([], ['*']):
+            return None
+        ds = _defs(self.body, rp['l'])
+        if len(ds) != 1 or ds[0][0] != 'call':
+            return None
+        t = ds[0][1]
+        c = callee(t)
+        pth = (c.get('resolved') or c['path']) if c else ''
+        if pth.split('::')[-1] not in ('index', 'index_mut') or len(t['args']) != 2 or t['args'][1].get('k') not in ('copy', 'move') or t['args'][1]['place']['p']:
+            return None
+        rd = _defs(self.body, t['args'][1]['place']['l'])
+        if not (len(rd) == 1 and rd[0][0] == 'assign' and rd[0][1]['k'] == 'agg' and rd[0][1].get('agg') == 'adt'
+                and rd[0][1]['adt'].startswith('std::ops::Range') and not rd[0][1]['adt'].endswith('Inclusive')):
+            return None
+        rv = rd[0][1]
+        whole = self.len_range(t['args'][0], ds[0][2])
+        if whole is None or whole[0] != whole[1]:
+            return None
+        vals = dict(zip(rv['fields'], rv['ops']))
+        lo = self.range_of(vals['start'], 0, ds[0][2]) if 'start' in vals else (0, 0)
+        hi = self.range_of(vals['end'], 0, ds[0][2]) if 'end' in vals else whole
+        if lo is None or hi is None or lo[0] != lo[1] or hi[0] != hi[1] or not (lo[0] <= hi[0] <= whole[0]):
+            return None
+        return (hi[0] - lo[0], hi[0] - lo[0])
+
     def len_range(self, op, block):
         """interval of the length of the slice / array an operand denotes, refined by guards on `x.len()`"""
         n = _array_len((op.get('place') or {}).get('ty'))
@@ -454,6 +482,9 @@ class Prover:
         sp = self._split_part_len(rp, block)
         if sp is not None:
             return sp
+        sv = self._range_view_len(rp, block)
+        if sv is not None:
+            return sv
         ck = self._chunk_len(op)
         if ck is not None:
             rng = (max(rng[0], ck[0]), min(rng[1], ck[1]))
